@@ -409,6 +409,13 @@ pub(super) fn execute_order_by<'a, S: GraphSnapshot + 'a>(
         })
         .collect();
 
+    // Sorting consumes every row: an error in any of them fails the query, also when a
+    // following LIMIT would cut the failing row off.
+    if let Some(pos) = sortable.iter().position(|(row, _)| row.is_err()) {
+        let (failed, _) = sortable.swap_remove(pos);
+        return PlanIterator::Dynamic(Box::new(std::iter::once(failed)));
+    }
+
     sortable.sort_by(|a, b| {
         for ((val_a, dir_a), (val_b, _)) in a.1.iter().zip(b.1.iter()) {
             let order = crate::evaluator::order_compare(val_a, val_b);
